@@ -111,9 +111,9 @@ struct in_rv IN;
 #include "e2fsck/revoke.c"
 
 unsigned long long g_bstar;			/* the ghost block number */
-struct jbd2_revoke_record_s *g_rec;		/* its record, NULL if absent */
-int g_old_present;				/* view on entry (OLD() cannot look through a possibly-NULL pointer) */
-unsigned int g_old_seq;
+int g_present;					/* view: a record for g_bstar exists ... */
+struct jbd2_revoke_record_s *g_rec;		/* ... and this is where it lives (a fixed, always valid slot: the
+						 * lookup returns it iff g_present; "inserting" g_bstar fills it) */
 
 static int spec_tid_gt(unsigned int x, unsigned int y)
 {
@@ -125,62 +125,63 @@ static unsigned int spec_tid_max(unsigned int stored, unsigned int s)
 	return spec_tid_gt(s, stored) ? s : stored;
 }
 
-#define VIEW_PRESENT (g_rec != 0)
-#define VIEW_UNCHANGED (VIEW_PRESENT == (g_old_present != 0) && (!VIEW_PRESENT || g_rec->sequence == g_old_seq))
+#define VIEW_PRESENT (g_present != 0)
+#define VIEW_SEQ (g_rec->sequence)
+#define VIEW_UNCHANGED (g_present == OLD(g_present) && (!g_present || g_rec->sequence == OLD(g_rec->sequence)))
 
 /* ---- callee contracts over the view (replace) ---- */
 static struct jbd2_revoke_record_s *find_revoke_record(journal_t *journal, unsigned long long blocknr)
 	ASSIGNS()
-	ENSURES(blocknr == g_bstar ? RET == g_rec
+	ENSURES(blocknr == g_bstar ? RET == (g_present ? g_rec : (struct jbd2_revoke_record_s *)0)
 				   : (RET == 0 || (FRESH(RET, sizeof(struct jbd2_revoke_record_s)) && RET->blocknr == blocknr)));
 
 static int insert_revoke_hash(journal_t *journal, unsigned long long blocknr, tid_t seq)
-	REQUIRES(blocknr != g_bstar || g_rec == 0)	/* call site: only after a failed lookup */
-	ASSIGNS(g_rec)
+	REQUIRES(blocknr != g_bstar || !g_present)	/* call site: only after a failed lookup */
+	ASSIGNS(g_present, g_rec->sequence, g_rec->blocknr)
 	ENSURES(RET == 0 || RET == -ENOMEM)
 	ENSURES((blocknr == g_bstar && RET == 0)
-		? (FRESH(g_rec, sizeof(struct jbd2_revoke_record_s)) && g_rec->blocknr == blocknr && g_rec->sequence == seq)
-		: g_rec == OLD(g_rec));
+		? (g_present == 1 && g_rec->blocknr == blocknr && g_rec->sequence == seq)
+		: (g_present == OLD(g_present) && g_rec->sequence == OLD(g_rec->sequence) && g_rec->blocknr == OLD(g_rec->blocknr)));
 
 /* ---- the functions under contract ---- */
 int jbd2_journal_set_revoke(journal_t *journal, unsigned long long blocknr, tid_t sequence)
-	REQUIRES(g_old_present == VIEW_PRESENT && (!VIEW_PRESENT || (g_old_seq == g_rec->sequence && g_rec->blocknr == g_bstar)))
-	ASSIGNS(g_rec; g_rec != 0: g_rec->sequence)
+	REQUIRES(g_present == 0 || g_present == 1)
+	ASSIGNS(g_present, g_rec->sequence, g_rec->blocknr)
 	ENSURES(RET == 0 || RET == -ENOMEM)
-	/* the record object itself: kept, or newly created for a block that had none (stated first: when this
-	 * contract is used in place of the function, the clauses below read through g_rec) */
-	ENSURES(g_rec == OLD(g_rec) || (OLD(g_rec) == 0 && blocknr == g_bstar && RET == 0 &&
-					FRESH(g_rec, sizeof(struct jbd2_revoke_record_s)) && g_rec->blocknr == g_bstar))
+	ENSURES(g_present == 0 || g_present == 1)
 	ENSURES(blocknr == g_bstar || VIEW_UNCHANGED)
 	ENSURES(!(blocknr == g_bstar && RET == 0) ||
-		(VIEW_PRESENT && g_rec->sequence == (g_old_present ? spec_tid_max(g_old_seq, sequence) : sequence)))
-	ENSURES(RET == 0 || (VIEW_UNCHANGED && !(blocknr == g_bstar && g_old_present)));
+		(VIEW_PRESENT && VIEW_SEQ == (OLD(g_present) ? spec_tid_max(OLD(g_rec->sequence), sequence) : sequence)))
+	ENSURES(RET == 0 || (VIEW_UNCHANGED && !(blocknr == g_bstar && OLD(g_present))));
 
 int jbd2_journal_test_revoke(journal_t *journal, unsigned long long blocknr, tid_t sequence)
-	REQUIRES(!VIEW_PRESENT || g_rec->blocknr == g_bstar)
 	ASSIGNS()
 	ENSURES(RET == 0 || RET == 1)
-	ENSURES(blocknr != g_bstar || (RET != 0) == (VIEW_PRESENT && !spec_tid_gt(sequence, g_rec->sequence)));
+	ENSURES(blocknr != g_bstar || (RET != 0) == (VIEW_PRESENT && !spec_tid_gt(sequence, VIEW_SEQ)));
 
 static journal_t J;
+
+static int old_present;		/* harness-side copy of the view before a call */
+static unsigned int old_seq;
 
 static void build_view(void)
 {
 	LOAD_IN();
 	g_bstar = IN.bstar;
-	if (IN.present & 1) {
-		g_rec = malloc(sizeof(*g_rec));
-		ASSUME(g_rec != 0);
+	g_rec = malloc(sizeof(*g_rec));
+	ASSUME(g_rec != 0);
+	g_present = IN.present & 1;
+	if (g_present) {
 		g_rec->blocknr = g_bstar;
 		g_rec->sequence = IN.seq;
-	} else
-		g_rec = 0;
+	}
 }
 static void snapshot(void)
 {
-	g_old_present = VIEW_PRESENT;
-	g_old_seq = VIEW_PRESENT ? g_rec->sequence : 0;
+	old_present = g_present;
+	old_seq = g_rec->sequence;
 }
+#define H_UNCHANGED (g_present == old_present && (!g_present || g_rec->sequence == old_seq))
 
 void h_revoke_single(void)
 {
@@ -189,21 +190,21 @@ void h_revoke_single(void)
 	if (IN.which & 1) {
 		int r = jbd2_journal_set_revoke(&J, IN.blk[0], IN.s[0]);
 		if (IN.blk[0] != g_bstar) {
-			CHECK(VIEW_UNCHANGED, "set_revoke of another block leaves this block's revoke state alone");
+			CHECK(H_UNCHANGED, "set_revoke of another block leaves this block's revoke state alone");
 			REACH("set other");
 		} else if (r == 0) {
 			CHECK(VIEW_PRESENT, "after set_revoke(b, s) a record for b exists");
-			CHECK(g_rec->sequence == (g_old_present ? spec_tid_max(g_old_seq, IN.s[0]) : IN.s[0]),
+			CHECK(g_rec->sequence == (old_present ? spec_tid_max(old_seq, IN.s[0]) : IN.s[0]),
 			      "the stored sequence is the tid-maximum of the previous one and s");
 			CHECK(!spec_tid_gt(IN.s[0], g_rec->sequence), "the stored sequence is never before the one just set");
 			REACH("set same");
 		} else {
-			CHECK(r == -ENOMEM && VIEW_UNCHANGED && !g_old_present, "set_revoke fails only for lack of memory, changing nothing");
+			CHECK(r == -ENOMEM && H_UNCHANGED && !old_present, "set_revoke fails only for lack of memory, changing nothing");
 			REACH("set enomem");
 		}
 	} else {
 		int r = jbd2_journal_test_revoke(&J, IN.tblk, IN.ts);
-		CHECK(VIEW_UNCHANGED, "test_revoke changes nothing");
+		CHECK(H_UNCHANGED, "test_revoke changes nothing");
 		if (IN.tblk == g_bstar) {
 			CHECK((r != 0) == (VIEW_PRESENT && !spec_tid_gt(IN.ts, g_rec->sequence)),
 			      "revoked iff a revoke record of that or a later transaction exists");
@@ -228,7 +229,6 @@ void h_revoke_history(void)
 			have = 1; \
 		} } while (0)
 	HSTEP(0);
-	snapshot(); CHECK(!VIEW_PRESENT || g_rec->blocknr == g_bstar, "DBG blocknr"); CHECK(g_old_present == VIEW_PRESENT, "DBG present"); CHECK(!VIEW_PRESENT || g_old_seq == g_rec->sequence, "DBG seq");
 	HSTEP(1);
 	HSTEP(2);
 	CHECK(VIEW_PRESENT == have, "a record exists iff some set_revoke for the block succeeded (or one existed before)");
